@@ -70,7 +70,6 @@ import "github.com/openkruise/rollouts/api/v1beta1"
 //@ func (*Rollout).ConvertTo
 //@ props C20
 //@ requires src != nil && dst.tag == typeid("*v1beta1.Rollout") && iref(dst) != nil
-//@ requires admitted: src.Spec.ObjectRef.WorkloadRef != nil && src.Spec.Strategy.Canary != nil
 //@ ensures never_fails: result == nil
 //@ ensures workload_ref: hubRollout(dst).Spec.WorkloadRef.APIVersion == src.Spec.ObjectRef.WorkloadRef.APIVersion && hubRollout(dst).Spec.WorkloadRef.Kind == src.Spec.ObjectRef.WorkloadRef.Kind && hubRollout(dst).Spec.WorkloadRef.Name == src.Spec.ObjectRef.WorkloadRef.Name
 //@ ensures canary_strategy: hubRollout(dst).Spec.Strategy.Canary != nil && hubRollout(dst).Spec.Strategy.BlueGreen == nil && hubRollout(dst).Spec.Strategy.Paused == src.Spec.Strategy.Paused && hubRollout(dst).Spec.Disabled == src.Spec.Disabled
@@ -117,7 +116,6 @@ import "github.com/openkruise/rollouts/api/v1beta1"
 //@ func (*Rollout).ConvertFrom
 //@ props C20
 //@ requires dst != nil && src.tag == typeid("*v1beta1.Rollout") && iref(src) != nil
-//@ requires admitted: hubRollout(src).Spec.Strategy.Canary != nil || hubRollout(src).Spec.Strategy.BlueGreen != nil
 //@ ensures never_fails: result == nil
 //@ ensures workload_ref: hubRollout(src).Spec.Strategy.BlueGreen == nil ==> dst.Spec.ObjectRef.WorkloadRef != nil && dst.Spec.ObjectRef.WorkloadRef.APIVersion == hubRollout(src).Spec.WorkloadRef.APIVersion && dst.Spec.ObjectRef.WorkloadRef.Kind == hubRollout(src).Spec.WorkloadRef.Kind && dst.Spec.ObjectRef.WorkloadRef.Name == hubRollout(src).Spec.WorkloadRef.Name
 //@ ensures canary_strategy: hubRollout(src).Spec.Strategy.BlueGreen == nil ==> dst.Spec.Strategy.Canary != nil && dst.Spec.Strategy.Paused == hubRollout(src).Spec.Strategy.Paused && dst.Spec.Disabled == hubRollout(src).Spec.Disabled && dst.Spec.Strategy.Canary.FailureThreshold == hubRollout(src).Spec.Strategy.Canary.FailureThreshold
@@ -182,7 +180,6 @@ func verifRoundTripRollout(src *Rollout, hub *v1beta1.Rollout, back *Rollout) {
 //@ func (*BatchRelease).ConvertTo
 //@ props C20
 //@ requires src != nil && dst.tag == typeid("*v1beta1.BatchRelease") && iref(dst) != nil
-//@ requires admitted: src.Spec.TargetRef.WorkloadRef != nil
 //@ ensures never_fails: result == nil
 //@ ensures workload_ref: hubBR(dst).Spec.WorkloadRef.APIVersion == src.Spec.TargetRef.WorkloadRef.APIVersion && hubBR(dst).Spec.WorkloadRef.Kind == src.Spec.TargetRef.WorkloadRef.Kind && hubBR(dst).Spec.WorkloadRef.Name == src.Spec.TargetRef.WorkloadRef.Name
 //@ ensures plan: samePlan(hubBR(dst), src)
